@@ -18,7 +18,8 @@ from ..harness import Leg, Violation, check, impl
 from ..models import timeidx as tm
 from ..models.ring import Ring
 
-DT = {"float32": torch.float32, "float64": torch.float64}
+DT = {"float32": torch.float32, "float64": torch.float64, "int64": torch.int64}
+ADJUST = {"half": lambda x: x * 0.5, "plus": lambda x: x + 1.0}
 INTERPS = ["previous", "next", "nearest", "linear", "expdecay", "expratedecay"]
 EXTRAPS = ["previous", "next", "neighbors", "nearest", "linear_forward", "linear_backward",
            "expdecay", "expratedecay"]
@@ -102,7 +103,7 @@ def run_case(case):
     pool = pre["pool"]
     with impl("prefix"):
         for i in range(pre["pushes"]):
-            vals = np.array([pool[(i * 7 + j * 3) % len(pool)] * 0.25 + i for j in range(numel)]).reshape(shape)
+            vals = np.array([pool[(i * 7 + j * 3) % len(pool)] * (1.0 if case["dtype"] == "int64" else 0.25) + i for j in range(numel)]).reshape(shape)
             rt.push(torch.tensor(vals, dtype=DT[case["dtype"]]), inplace=pre["inplace"])
             ring.push(vals)
         if pre["incr"] % n:
@@ -111,7 +112,7 @@ def run_case(case):
     ptr = rt.pointer
     st_ = dict.fromkeys(["off", "on", "amb", "rej", "distinct_bracket", "roundtrip", "insert_off",
                          "tensor", "scalar", "D"], 0)
-    f32data = case["dtype"] == "float32"
+    f32data = case["dtype"] in ("float32", "int64")
     idxs = [tuple(ix) for ix in np.ndindex(*shape)] if shape else [()]
 
     for oi, op in enumerate(case["ops"]):
@@ -147,10 +148,15 @@ def run_case(case):
             targ = torch.tensor(tvals, dtype=DT[tdtype])
         kw = {}
         name = op["fn"]
+        adj = op.get("adjust") if (op["op"] == "insert" and name.startswith("linear")) else None
+        if op["op"] == "insert" and case["dtype"] == "int64":
+            continue  # integer storage: reads only (inserted values are cast back, not part of the oracle)
         if name == "expdecay":
             kw = {"time_constant": tau}
         elif name == "expratedecay":
             kw = {"rate_constant": 1.0 / tau}
+        if adj:
+            kw = dict(kw, adjust=ADJUST[adj])
 
         if "out" in rng:
             # documented rejection: ValueError, state untouched
@@ -237,6 +243,11 @@ def run_case(case):
                     expect[((off + older) % n, ix)] = None
                     expect[((off + newer) % n, ix)] = None
                     continue
+                if adj:  # documented: f is applied to the kept neighbour before extrapolating
+                    if name == "linear_forward":
+                        o_ = float(ADJUST[adj](o_))
+                    else:
+                        n_ = float(ADJUST[adj](n_))
                 (eo, en), amb = tm.extrap(name, x, elapsed, o_, n_, dt, tau)
                 if amb:
                     st_["amb"] += 1
@@ -246,8 +257,8 @@ def run_case(case):
                 st_["off"] += 1
                 st_["insert_off"] += 1
                 exact = name in ("previous", "next", "neighbors", "nearest")
-                expect[((off + older) % n, ix)] = (eo, exact or eo == o_)
-                expect[((off + newer) % n, ix)] = (en, exact or en == n_)
+                expect[((off + older) % n, ix)] = (eo, exact or (eo == o_ and not adj))
+                expect[((off + newer) % n, ix)] = (en, exact or (en == n_ and not adj))
             with impl("read back after " + what):
                 after = [rt.read(k).detach().to(torch.float64).numpy().reshape(shape) for k in range(n)]
                 check(rt.pointer == ptr and rt.recordsz == n, "insert:pointer",
@@ -335,6 +346,7 @@ def _op(draw):
         op["inplace"] = draw(st.booleans())
         op["pool"] = draw(st.lists(st.integers(-20, 20), min_size=1, max_size=4))
         op["roundtrip"] = draw(st.sampled_from(tm.ROUNDTRIP[fn] + [None]))
+        op["adjust"] = draw(st.sampled_from([None, None, "half", "plus"]))
     return op
 
 
@@ -344,7 +356,7 @@ def case_strategy(draw, tier="quick"):
     dt = draw(st.sampled_from([0.5, 1.0, 0.25, 1.3, 0.1, 0.7, 1.0]))
     shape = draw(st.sampled_from([[], [1], [2], [3], [2, 2]]))
     return {
-        "n": n, "dt": dt, "dtype": draw(st.sampled_from(["float32", "float32", "float64"])),
+        "n": n, "dt": dt, "dtype": draw(st.sampled_from(["float32", "float32", "float64", "int64"])),
         "shape": shape,
         "pre": {"pushes": draw(st.integers(0, 2 * n + 3)), "inplace": draw(st.booleans()),
                 "pool": draw(st.lists(st.integers(-20, 20), min_size=2, max_size=6)),
@@ -366,7 +378,7 @@ LEGS = [
 ]
 
 ASSUMPTIONS = [
-    "float storage (float32/float64); times classified through the documented tolerance predicate on exact rationals "
+    "float storage (float32/float64) for select and insert, int64 storage for select; times classified through the documented tolerance predicate on exact rationals "
     "with an ambiguity band of 8 ulp of the working dtype (ambiguous elements are skipped and counted)",
     "linear_* extrapolation is not asserted when t_s (resp. dt - t_s) < 0.04 dt (documented division)",
     "interp_nearest: nearest neighbour in time (the code's behaviour; the docstring's case formula is inverted), tie at half a step banded",
